@@ -9,7 +9,9 @@ import (
 	"flag"
 	"fmt"
 	"os"
+	"os/signal"
 	"runtime"
+	"syscall"
 
 	"verif/harness/internal/proto"
 )
@@ -44,7 +46,16 @@ func main() {
 	fs.BoolVar(&optKeep, "keeproot", false, "fs: attach to the existing scratch root (a restarted process) and leave it in place")
 	fs.IntVar(&optFdBase, "fdbase", 0, "fs: number of descriptors handed out before this process started")
 	fs.BoolVar(&optPin, "pin", false, "lock the OS thread and flush every reply (for runs under strace fault injection)")
+	fsize := fs.Int64("fsize", -1, "limit the size of files this process may write (RLIMIT_FSIZE, SIGXFSZ ignored): writes beyond it are short, then fail with EFBIG")
 	fs.Parse(os.Args[3:])
+	if *fsize >= 0 {
+		signal.Ignore(syscall.SIGXFSZ)
+		lim := syscall.Rlimit{Cur: uint64(*fsize), Max: uint64(*fsize)}
+		if err := syscall.Setrlimit(syscall.RLIMIT_FSIZE, &lim); err != nil {
+			fmt.Fprintln(os.Stderr, "setrlimit:", err)
+			os.Exit(2)
+		}
+	}
 	defer proto.Flush()
 	if optPin {
 		runtime.LockOSThread()
